@@ -77,7 +77,7 @@ struct C14 : Harness {
     }
 
     std::string run(const Program &p, Stats &st) override {
-        MonHooks mha; mha.reset((int)(fnv64(ser(p)) % 3)); mha.check_live = false;
+        MonHooks mha; mha.reset((int)(fnv64(ser(p)) % 9)); mha.check_live = false;
         ExecOptions eo; eo.heap_buffers = heap; eo.hooks = &mha;
         Exec exa(api, eo);
         Transcript ta = exa.run(p);
